@@ -15,6 +15,9 @@ import PyxModel.Extract.Edit
     rel       = (ID NUMB kind parent)
     kind      = (simple end end (ref…)) | (linked end end LINK (ref…) (ref…)) | (subsup SUPER ((SUB (ref…))…)) | derived
     end       = (CLS T|F T|F "phrase")         ref = (RATTR IATTR)
+  optional 5th element: ((CLS attr)…) attributes off the R103 chain; optional 6th: relationships row by row
+    rowrel    = (ID NUMB rows parent)
+    rows      = ((SIMP ASSOC SUBSUP COMP) end? (end…) (ref…) end? end? ID? (ref…) (ref…) ID? ((SUB (ref…))…))   x? = x | none
 -/
 
 namespace Pyx.Extract.Wire
@@ -107,6 +110,23 @@ def dLoose : Sexp → Option (Nat × Attr)
   | list [c, a] => do some (← dNat c, ← dAttr a)
   | _ => none
 
+def dOpt {α : Type} (f : Sexp → Option α) : Sexp → Option (Option α)
+  | sym "none" => some none
+  | x => (f x).map some
+
+def dRelRows : Sexp → Option RelRows
+  | list [list [si, as, su, co], f, ps, rs, o, t, l, r1, r2, sup, subs] => do
+    some { simp := ← dBool si, assoc := ← dBool as, subsup := ← dBool su, comp := ← dBool co,
+           form := ← dOpt dEnd f, parts := ← dList dEnd ps, refs := ← dList dRef rs,
+           aone := ← dOpt dEnd o, aoth := ← dOpt dEnd t, assr := ← dOpt dNat l,
+           refsOne := ← dList dRef r1, refsOth := ← dList dRef r2,
+           super := ← dOpt dNat sup, subs := ← dList dSub subs }
+  | _ => none
+
+def dRowRel : Sexp → Option RowRel
+  | list [i, n, w, p] => do some { id := ← dNat i, numb := ← dNat n, rows := ← dRelRows w, parent := ← dParent p }
+  | _ => none
+
 def dDiagram : Sexp → Option ClassDiagram
   | list [cs, ts, ks, rs] => do
     some { containers := ← dList dContainer cs, dts := ← dList dDataType ts, classes := ← dList dClass ks,
@@ -114,6 +134,9 @@ def dDiagram : Sexp → Option ClassDiagram
   | list [cs, ts, ks, rs, ls] => do
     some { containers := ← dList dContainer cs, dts := ← dList dDataType ts, classes := ← dList dClass ks,
            rels := ← dList dRel rs, loose := ← dList dLoose ls }
+  | list [cs, ts, ks, rs, ls, os] => do
+    some { containers := ← dList dContainer cs, dts := ← dList dDataType ts, classes := ← dList dClass ks,
+           rels := ← dList dRel rs, loose := ← dList dLoose ls, rowRels := ← dList dRowRel os }
   | _ => none
 
 /-- component name as passed to `build_component`: `none` or a string -/
